@@ -334,7 +334,12 @@ fn main() {
             };
 
             if !lint.no_output {
-                diags.sort();
+                // Order by file name and position. The file ids are random,
+                // so ordering by them would change the output from run to run.
+                diags.sort_by(|a, b| {
+                    (parser.reader.get_filename(a.file), &a.range)
+                        .cmp(&(parser.reader.get_filename(b.file), &b.range))
+                });
 
                 // Output as JSON
                 if lint.json {
